@@ -3,6 +3,7 @@ package c13
 
 import (
 	"fmt"
+	"github.com/twpayne/go-geom/bigxy"
 	"math"
 	"sort"
 	"strconv"
@@ -477,6 +478,16 @@ func flatOf(c Case) []float64 {
 }
 
 func prop(c Case) error {
+	// the exact-arithmetic package's other exported function runs first (whatever it
+	// returns or panics with): it shares nothing with what is measured here
+	_ = run.Safe(func() error {
+		_ = bigxy.Intersection(geom.Coord{0.1, 0.7}, geom.Coord{3.3, -1.9}, geom.Coord{-2.5, 0.3}, geom.Coord{4.7, 1.1})
+		return nil
+	})
+	return propMain(c)
+}
+
+func propMain(c Case) error {
 	buf := flatOf(c)
 	if err := hullOf(c, buf); err != nil {
 		return err
